@@ -8,7 +8,7 @@ probes, with results or errors queued, with full buffers, during the exit delay.
 The packet side (sender / receiver / generator workers / merge stages) is the transition system of C07
 (`Model/Pipe.lean`, `Proofs/ConcPacket*.lean`); its two cancellation theorems are at the end of this file.
 -/
-import SxVerif.Proofs.EngineC12
+import SxVerif.Proofs.EngineTerm
 import SxVerif.Props.C07
 import SxVerif.Generated.StagesEngine
 import SxVerif.Generated.Constants
@@ -143,11 +143,30 @@ theorem C12_whole_records (hr : Reachable c (init reqs ext) s) {l : Label} {s' :
      (l ≠ .logWrite ∧ s'.printed = s.printed)) ∧ (∀ v ∈ s.printed, v ∈ s.puts) :=
   ⟨printed_only_logWrite hn, printed_sub hr⟩
 
-/-- not claimed here: termination itself needs weak fairness of the Go scheduler / `select` (an enabled
-    return-path step is eventually taken) and `Scan` / `Write` / `limiter.Take` returning (C09/C10 bounds) -/
-def C12_full : Prop :=
-  ∀ (c : Cfg) (reqs : List Req) (ext : List (Nat × Nat)) (s : Sys), Reachable c (init reqs ext) s →
-    s.derCtx = true → ∃ ls s', exec c s ls = some s' ∧ s'.main = .returned ∧ (ls.filter isRP).length ≤ rank c s
+/-- **the run can always return**: from every reachable state in which the derived ctx is cancelled there is a
+    continuation made of return-path steps ONLY (no step of the generator, the copier, the controller, an external
+    producer or the clock is needed) that ends with `startScanEngine` returned, and it is no longer than the rank.
+    (`C12_progress` iterated along the ranking function; this is the statement that was kept as the unproved
+    `C12_full` in earlier rounds.) -/
+theorem C12_return_exists (hr : Reachable c (init reqs ext) s) (hd : s.derCtx = true) :
+    ∃ ls s', exec c s ls = some s' ∧ s'.main = .returned ∧ (∀ l ∈ ls, isRP l = true) ∧ ls.length ≤ rank c s :=
+  return_exists hr hd
+
+/-- the statement formerly left open, as it was written -/
+theorem C12_full : ∀ (c : Cfg) (reqs : List Req) (ext : List (Nat × Nat)) (s : Sys), Reachable c (init reqs ext) s →
+    s.derCtx = true → ∃ ls s', exec c s ls = some s' ∧ s'.main = .returned ∧ (ls.filter isRP).length ≤ rank c s := by
+  intro c reqs ext s hr hd
+  obtain ⟨ls, s', he, hm, _, hlen⟩ := return_exists hr hd
+  exact ⟨ls, s', he, hm, Nat.le_trans (List.length_filter_le _ _) hlen⟩
+
+/-- **the only way not to return is starvation**: an execution that has come to a state (after the cancellation) in
+    which no return-path step is enabled has returned.  Together with `C12_bounded_return` (at most `rank` return-path
+    steps can ever be taken) this is termination under weak fairness — an enabled return-path step is eventually
+    taken — which is what is asked of the Go scheduler; that every fair INFINITE schedule ends is not stated in Lean
+    (schedules here are finite lists), and `Scan` / `Write` returning is C09/C10's bound. -/
+theorem C12_quiescent_returned (hr : Reachable c (init reqs ext) s) (hd : s.derCtx = true)
+    (hq : ∀ l, isRP l = true → next c s l = none) : s.main = .returned :=
+  quiescent_returned hr hd hq
 
 /-! ### non-vacuity (tests): Ctrl-C while a result is queued, an error is queued and a worker is inside
     `Put`; the run returns, nothing panics -/
